@@ -31,7 +31,7 @@ STRUCTURE_INDEPENDENT = {
     # verdict state kept on the verifier, a path to the writer that misses the gate / a send slot keyed by the period
     "R08.5", "R08.6", "R09.4", "R10.1", "R10.2", "J", "R04.8", "R06.9",
     # construct-level rules of sa/rules/lints.py
-    "R01.10", "R02.9", "R04.9", "R10.4", "R14.6", "R07.8", "R11.8", "R18.7", "R09.6", "R09.7", "R14.7", "R10.5", "R15.5", "R15.6", "R16.7", "R16.8", "R09.8", "R14.8", "R18.8", "R10.6", "R05.5", "R07.9", "R12.9", "R01.11", "R02.10", "R20.6", "R20.7", "R11.9", "W1", "R13.6",
+    "R01.10", "R02.9", "R04.9", "R10.4", "R14.6", "R07.8", "R11.8", "R18.7", "R09.6", "R09.7", "R14.7", "R10.5", "R15.5", "R15.6", "R16.7", "R16.8", "R16.9", "R09.8", "R14.8", "R18.8", "R10.6", "R05.5", "R07.9", "R12.9", "R01.11", "R02.10", "R20.6", "R20.7", "R11.9", "W1", "R13.6",
     # a handler the template calls and the C file does not define; a raising construct outside every handler
     "R06.2", "R11.6",
 }
